@@ -85,7 +85,9 @@ def evaluate_format_constraint_tree(
         result = FormatConstraintTransformer(input_values).transform(parsed_tree)
     except VisitError as visit_err:
         raise visit_err.orig_exc
-
+    if result.format_constraint_fulfilled and result.error_message is not None:
+        # Only an unfulfilled result is explained. A text that a _fulfilled_ single format constraint carries is no error.
+        result = EvaluatedFormatConstraint(format_constraint_fulfilled=True, error_message=None)
     return result
 
 
